@@ -2,7 +2,7 @@
 (* Input grid for C31: every combination of field presence of a ServerHello / TLS 1.3 CertificateRequest view and
    short lists of key shares, PSK identities and ticket keys.  The scenario is the initial state; TLC emits each as
    JSON (SCN) and the harness builds the corresponding Go values. *)
-EXTENDS Integers, Sequences, FiniteSets, TLC, Json
+EXTENDS TLSWire, Json
 CONSTANT Full
 VARIABLE scn
 SHGrid == [kind : {"SH"}, vers : {771}, sid : IF Full THEN {0, 32} ELSE {32}, npn : {0, 1, 2}, ocsp : {0, 1}, scts : {0, 2},
@@ -16,7 +16,54 @@ UpTo2(S) == {<<>>} \cup {<<a>> : a \in S} \cup {<<a, b>> : a \in S, b \in S}
 ListGrid == [kind : {"KS"}, items : UpTo2({<<29, 32>>, <<23, 65>>, <<4588, 0>>, <<2570, 1>>})]
        \cup [kind : {"PSK"}, items : UpTo2({<<0, 0>>, <<16, 2>>, <<1, 4>>, <<3, 3>>})]
        \cup [kind : {"TK"}, items : UpTo2({<<1>>, <<200>>})]
-Init == scn \in {s \in SHGrid : ValidSH(s)} \cup CRGrid \cup ListGrid
+
+\* ---------------------------------------------------------------- ClientHello views over presence combinations
+\* Optional members of a ClientHello as Go's clientHelloMsg knows them; each is "absent", present with a "small"
+\* value, or (where the grammar and Go's parser allow an empty body/list) present "empty".
+Members == {"sni", "ocsp", "groups", "points", "ticket", "sigs", "sigscert", "reneg", "ems", "alpn", "sct", "versions",
+            "cookie", "shares", "pskmodes", "earlydata", "quic", "sid"}
+Vals(m) == IF m \in {"ticket", "reneg", "shares", "quic"} THEN {"absent", "small", "empty"} ELSE {"absent", "small"}
+Seq32(k) == [i \in 1..32 |-> (i * 7 + k) % 256]
+ExtOf(m, v) ==
+  IF v = "absent" THEN <<>> ELSE
+  CASE m = "sni" -> Ext(0, Vec16(<<0>> \o Vec16(<<97, 46, 101, 120, 97, 109, 112, 108, 101>>)))
+    [] m = "ocsp" -> Ext(5, <<1, 0, 0, 0, 0>>)
+    [] m = "groups" -> Ext(10, Vec16(U16List(<<29, 23>>)))
+    [] m = "points" -> Ext(11, Vec8(<<0>>))
+    [] m = "ticket" -> Ext(35, IF v = "empty" THEN <<>> ELSE <<1, 2, 3, 4>>)
+    [] m = "sigs" -> Ext(13, Vec16(U16List(<<1027, 2052>>)))
+    [] m = "sigscert" -> Ext(50, Vec16(U16List(<<1025>>)))
+    [] m = "reneg" -> Ext(65281, Vec8(IF v = "empty" THEN <<>> ELSE <<5, 6, 7, 8>>))
+    [] m = "ems" -> Ext(23, <<>>)
+    [] m = "alpn" -> Ext(16, Vec16(ProtoList(<< <<104, 50>>, <<104, 116, 116, 112, 47, 49, 46, 49>> >>)))
+    [] m = "sct" -> Ext(18, <<>>)
+    [] m = "versions" -> Ext(43, Vec8(U16List(<<772, 771>>)))
+    [] m = "cookie" -> Ext(44, Vec16(<<9, 8, 7>>))
+    [] m = "shares" -> Ext(51, Vec16(IF v = "empty" THEN <<>> ELSE U16(29) \o Vec16(Seq32(3))))
+    [] m = "pskmodes" -> Ext(45, Vec8(<<1>>))
+    [] m = "earlydata" -> Ext(42, <<>>)
+    [] m = "quic" -> Ext(57, IF v = "empty" THEN <<>> ELSE <<1, 2, 64, 100>>)
+    [] OTHER -> <<>>
+\* order of Go's encoder (handshake_messages.go marshalMsg); any order is a valid ClientHello
+ExtOrder == <<"sni", "ocsp", "groups", "points", "ticket", "sigs", "sigscert", "reneg", "ems", "alpn", "sct", "versions",
+              "cookie", "shares", "earlydata", "pskmodes", "quic">>
+EncodeCH(f) ==
+  LET exts == Flat([i \in DOMAIN ExtOrder |-> ExtOf(ExtOrder[i], f[ExtOrder[i]])])
+      sid == IF f.sid = "absent" THEN <<>> ELSE Seq32(1)
+      body == U16(771) \o Seq32(0) \o Vec8(sid) \o Vec16(U16List(<<4865, 49199, 47>>)) \o Vec8(<<0>>)
+              \o (IF exts = <<>> THEN <<>> ELSE Vec16(exts))
+  IN <<1>> \o U24(Len(body)) \o body
+\* all-pairs (K = 2) / all-triples (K = 3) coverage: every combination of values of any K members occurs, the other
+\* members being all absent or all present
+K == IF Full THEN 3 ELSE 2
+Bases == {[m \in Members |-> "absent"], [m \in Members |-> "small"]}
+Sub == IF Full THEN {{a, b, c} : a \in Members, b \in Members, c \in Members} ELSE {{a, b} : a \in Members, b \in Members}
+CHFields == UNION { UNION { { [m \in Members |-> IF m \in D THEN c[m] ELSE base[m]] :
+                               c \in {x \in [D -> {"absent", "small", "empty"}] : \A m \in D : x[m] \in Vals(m)} } : D \in Sub } : base \in Bases }
+CHGrid == {[kind |-> "CHW", f |-> f, raw |-> EncodeCH(f)] : f \in CHFields}
+ASSUME \A g \in CHGrid : ValidClientHello(g.raw)
+
+Init == scn \in {s \in SHGrid : ValidSH(s)} \cup CRGrid \cup ListGrid \cup CHGrid
 Next == UNCHANGED scn
 Emit == PrintT(<<"SCN", ToJson(scn)>>)
 =============================================================================
